@@ -347,6 +347,145 @@ def run_hashfile_fs(ctx, n):
         hashfile_fs_case(ctx, case)
 
 
+SIZE_CFGS = ["file_md5-arg", "stale-info", "sizeless-fs", "datafs"]
+SIZE_REPORTS = ["none", "absent", "zero", "short", "long", "exact"]
+
+
+def _reported(report, n):
+    """the size a listing / caller claims for a file of n bytes"""
+    return {"none": None, "absent": None, "zero": 0, "short": n // 2, "long": 2 * n + 7, "exact": n}[report]
+
+
+def size_report_case(ctx, case):
+    """The size that comes with a file - the size= argument of file_md5, the `size` field of an info dict handed to
+    hash_file, what the filesystem's own info()/size() answer, the size of an index entry behind a DataFileSystem - is
+    a progress hint only: it may be unknown (None / no such field: an index entry loaded without a size, a server that
+    sends no length), understated (0 as procfs reports, or a listing taken while the writer had not finished) or
+    overstated (listing taken before a truncating rewrite).  Whatever it says, the digest is the reference digest of
+    the bytes the file serves *now*, and a progress callback is told of exactly those bytes."""
+    from dvc_objects.fs.local import LocalFileSystem
+    from fsspec.callbacks import Callback
+
+    from dvc_data.hashfile.hash import file_md5, hash_file
+
+    from .util import bump_mtime
+
+    cfg, name, report = case["size_report"], case["name"], case["report"]
+    data = bytes.fromhex(case["content"])
+    claimed = _reported(report, len(data))
+    d = ctx.mkdtemp()
+    local = LocalFileSystem()
+    p = os.path.join(d, "f")
+    cb = Callback() if case.get("callback") else None
+
+    def doctor(info):
+        info = dict(info)
+        if report == "absent":
+            info.pop("size", None)
+        else:
+            info["size"] = claimed
+        return info
+
+    if cfg == "datafs":
+        from dvc_data.fs import DataFileSystem
+        from dvc_data.hashfile.db import HashFileDB
+        from dvc_data.hashfile.hash_info import HashInfo
+        from dvc_data.hashfile.meta import Meta
+        from dvc_data.index import DataIndex, DataIndexEntry, ObjectStorage
+
+        ih = case["index_hash"]
+        oid = _expected(ih, data)
+        odb = HashFileDB(local, os.path.join(d, "odb"), hash_name=ih)
+        odb.add_bytes(oid, data)
+        key = ("sub", "f") if case.get("nested") else ("f",)
+        meta = {"none": Meta(), "absent": None, "exact": Meta(size=len(data))}[report]
+        index = DataIndex({key: DataIndexEntry(key=key, meta=meta, hash_info=HashInfo(name=ih, value=oid))})
+        index.storage_map.add_cache(ObjectStorage((), odb))
+        fs, path = DataFileSystem(index), "/".join(key)
+        info = fs.info(path) if case.get("info_arg") else None
+    else:
+        fs, path = local, p
+        if cfg == "stale-info" and claimed is not None:
+            # a real two-step history: the listing is taken of an earlier version of the file, then the writer finishes
+            with open(p, "wb") as f:
+                f.write((data + data + b"padding")[:claimed])
+            info = local.info(p)
+            with open(p, "wb") as f:
+                f.write(data)
+            bump_mtime(p)
+        else:
+            with open(p, "wb") as f:
+                f.write(data)
+            info = doctor(local.info(p)) if cfg == "stale-info" else None
+        if cfg == "sizeless-fs":
+
+            class SizelessFS(LocalFileSystem):
+                """local files behind a filesystem whose listing does not know / misstates sizes"""
+
+                def info(self, path, **kw):
+                    return doctor(super().info(path, **kw))
+
+                def size(self, path):
+                    return self.info(path).get("size")
+
+            fs = SizelessFS()
+            info = fs.info(p) if case.get("info_arg") else None
+
+    def f():
+        with fs.open(path, "rb") as fobj:
+            served = fobj.read()
+        if cfg == "file_md5-arg":
+            kw = {} if report == "absent" else {"size": claimed}
+            hname, value = name, file_md5(path, fs, callback=cb, name=name, **kw)
+        else:
+            _, hi = hash_file(path, fs, name, callback=cb, info=info)
+            hname, value = hi.name, hi.value
+        out = {"served_intact": served == data, "hash_name": hname, "value": value}
+        if cb is not None and cfg == "file_md5-arg":
+            out["callback_bytes"] = cb.value
+        return out
+
+    k, v = safe_call(f)
+    got = v if k == "ok" else {"err": v}
+    exp = {"served_intact": True, "hash_name": name, "value": _expected(name, data)}
+    if cb is not None and cfg == "file_md5-arg":
+        exp["callback_bytes"] = len(data)
+    ctx.oracle(got == exp, case, {"why": "the digest (or the byte count told to the progress callback) follows the size reported for the file, not the content it serves",
+                                  "claimed_size": claimed, "real_size": len(data), "impl": got, "expected": exp,
+                                  "digest_of_empty_input": _expected(name, b"")})
+
+
+def run_size_report(ctx, n):
+    rng = ctx.rng
+    for _ in range(n):
+        data, kind = gen_content(rng)
+        if not data and rng.random() < 0.8:
+            data, kind = bytes(rng.randrange(256) for _ in range(rng.randrange(1, 300))), "binary"
+        cfg = rng.choice(SIZE_CFGS)
+        report = rng.choice(["none", "absent", "exact"] if cfg == "datafs" else SIZE_REPORTS)
+        name = rng.choice(["md5", "sha256", "md5-dos2unix", "blake3", "sha1"])
+        if cfg == "file_md5-arg" and rng.random() < 0.2:
+            # case variants only where the library takes them: hash_file() refuses names it does not list in lower case
+            name = rng.choice(["SHA256", "Md5", "BLAKE3", "MD5-DOS2UNIX"])
+        case = {"size_report": cfg, "report": report, "name": name, "content": data.hex(), "callback": rng.random() < 0.5}
+        if cfg == "datafs":
+            case["index_hash"] = rng.choice(["md5", "md5", "md5-dos2unix", "sha256"])
+            case["nested"] = rng.random() < 0.3
+        if cfg in ("datafs", "sizeless-fs"):
+            case["info_arg"] = rng.random() < 0.5
+        ctx.case(case, nontrivial=bool(data))
+        ctx.count("size_report:" + cfg)
+        ctx.count("size_report report:" + report)
+        ctx.count("size_report name:" + name)
+        ctx.count("size_report content:" + kind)
+        claimed = _reported(report, len(data))
+        if data and (claimed is None or claimed < len(data)):
+            ctx.count("size_report unknown/understated size, non-empty content")
+        if cfg == "datafs" and report != "exact" and name.lower() != case["index_hash"]:
+            ctx.count("size_report sizeless index entry, non-recorded algorithm")
+        size_report_case(ctx, case)
+
+
 def run_overlap(ctx, n):
     """several hashing streams alive at once (alternating reads, a finished stream inspected after another was
     opened, threads): each digest is that of its own content"""
@@ -465,7 +604,7 @@ def run_dos2unix(ctx, n):
 def run(ctx):
     ctx.rule = (
         "contents from 8 families (text, CRLF, CR runs, binary, NUL, 30%-threshold mixes, CRLF straddling 511/512, empty) x "
-        "9 algorithm names x random read schedules through a short-read file object; whole-file APIs on real files up to >1 MiB; hash_file (with / without info=) over filesystems that record hashes for their files (local info carrying md5/etag/checksum, DataFileSystem over md5 / md5-dos2unix / sha256 indexes) with CRLF/LF twins; 2-4 streams alive at once (alternating reads, inspected after the others were opened, threads); "
+        "9 algorithm names x random read schedules through a short-read file object; whole-file APIs on real files up to >1 MiB; hash_file (with / without info=) over filesystems that record hashes for their files (local info carrying md5/etag/checksum, DataFileSystem over md5 / md5-dos2unix / sha256 indexes) with CRLF/LF twins; 2-4 streams alive at once (alternating reads, inspected after the others were opened, threads); file_md5 / hash_file on files whose reported size (size= argument, info= listing taken of an earlier version, the filesystem's own info()/size(), index entry behind a DataFileSystem) is unknown / absent / 0 / too small / too large / exact, with and without a progress callback; "
         "non-trivial = at least one non-empty chunk; distinct = sha256 of (name, readsize, chunks)"
     )
     ctx.assumptions = ["hashlib/blake3 hashers are functions of the concatenation of their updates (H is a parameter of every theorem)"]
@@ -475,6 +614,7 @@ def run(ctx):
     run_files(ctx, ctx.n(150, 1500))
     run_hashfile_fs(ctx, ctx.n(200, 2000))
     run_overlap(ctx, ctx.n(150, 1500))
+    run_size_report(ctx, ctx.n(240, 2400))
 
 
 def search(ctx):
@@ -482,6 +622,7 @@ def search(ctx):
     run_files(ctx, 1500)
     run_hashfile_fs(ctx, 2000)
     run_overlap(ctx, 1500)
+    run_size_report(ctx, 2400)
 
 
 def replay(ctx, payload):
@@ -489,6 +630,9 @@ def replay(ctx, payload):
     if "hashfile_fs" in c:
         ctx.case(c)
         hashfile_fs_case(ctx, c)
+    elif "size_report" in c:
+        ctx.case(c)
+        size_report_case(ctx, c)
     elif "chunks" in c and "name" in c:
         chunks = [bytes.fromhex(x) for x in c["chunks"]]
         ans = ctx.driver.ask({"op": "hashstream", "name": c["name"], "chunks": c["chunks"]})
